@@ -30,7 +30,7 @@ def max_regret_var_heuristic(
     :param stacks_top: the index of the top of the stacks as a Numpy array
     :return: the index of the shared domain
     """
-    max_regret = 0
+    max_regret = -1  # a regret of 0 (ties) must be selectable
     best_idx = -1
     cp_top_idx = stacks_top[0]
     for dom_idx in decision_domains:
